@@ -38,18 +38,22 @@ VARIABLES sit, last           \* sit: the situation (target, unit, inc, q, rc, n
 vars == <<sit, last>>
 None == [op |-> "none"]
 
-Sits == {s \in [target : Targets, u : RoundUnits, q : Qs, rc : RClasses, neg : BOOLEAN, inc : 1..1] : TRUE}
+Sits == {s \in [target : Targets, u : RoundUnits, q : Qs, rc : RClasses, neg : BOOLEAN, inc : 1..1, k : 0..1] : TRUE}
 IncsFor(target, u) == IF target = "Instant.round" THEN InstIncs(u) ELSE TimeIncs(u)
-Init == /\ \E target \in Targets, u \in RoundUnits, q \in Qs, rc \in RClasses, neg \in BOOLEAN :
+\* k: PlainTime.round counts its multiples from the start of the ENCLOSING unit (RoundTime: the hour for minutes, the minute for seconds ...),
+\* not from midnight; with an increment that fits an odd number of times into that unit (20 min, 12 s, 8 ms) the two counts differ in
+\* parity after an odd number k of enclosing units, which is what half-even looks at: 01:10 to 20 minutes is 01:00, not 01:20
+Init == /\ \E target \in Targets, u \in RoundUnits, q \in Qs, rc \in RClasses, neg \in BOOLEAN, k \in 0..1 :
              \E inc \in IncsFor(target, u) :
-               /\ sit = [target |-> target, u |-> u, q |-> q, rc |-> rc, neg |-> neg, inc |-> inc]
+               /\ sit = [target |-> target, u |-> u, q |-> q, rc |-> rc, neg |-> neg, inc |-> inc, k |-> k]
+               /\ (k = 1 => target = "PlainTime.round" /\ u # "hour" /\ rc = "tie" /\ Lt(Magnitude(IncNs(inc, u), q, rc), ParentNsBig(u)))
                /\ HasClass(IncNs(inc, u), rc)
                /\ (target = "PlainTime.round" => ~neg)
                /\ (target \in {"PlainTime.round", "PlainTime.diff"} => Lt(Magnitude(IncNs(inc, u), q, rc), DayNsBig))
         /\ last = None
 
 N == IncNs(sit.inc, sit.u)
-X == LET m == Magnitude(N, sit.q, sit.rc) IN IF sit.neg THEN Neg(m) ELSE m
+X == LET m == Add(Magnitude(N, sit.q, sit.rc), IF sit.k = 1 THEN ParentNsBig(sit.u) ELSE Zero) IN IF sit.neg THEN Neg(m) ELSE m
 ClsOf(mode) == sit.u \o "/" \o RoundCls(X, N) \o "/" \o mode
 
 CaseFor(mode) ==
